@@ -292,6 +292,57 @@ theorem fixer_spec {v : Variant} {kw : Kw} {g : Nat} {m r : Tree} (h : fixer v k
           rw [this] at hty
           cases hty
 
+/-! ### `module.train(mode)` on a replacement -/
+
+theorem find_setMode (b : Bool) (a : Name) (k : Forest) :
+    (k.setMode b).find a = (k.find a).map (setMode b) := by
+  induction k with
+  | nil => rfl
+  | cons i kk r _ ihr =>
+    simp only [Forest.setMode, Forest.find]
+    split
+    · rfl
+    · exact ihr
+
+theorem subAt_setMode (b : Bool) (q : Path) (t : Tree) : subAt q (setMode b t) = (subAt q t).map (setMode b) := by
+  induction q generalizing t with
+  | nil => rfl
+  | cons a q ih =>
+    simp only [subAt_cons, setMode, find_setMode]
+    cases t.kids.find a with
+    | none => rfl
+    | some c => simpa using ih c
+
+theorem forest_all_setMode (P : Info → Bool) (hP : ∀ i b, P { i with training := b } = P i) (b : Bool) (k : Forest) :
+    (k.setMode b).all P = k.all P := by
+  induction k with
+  | nil => rfl
+  | cons i kk r ihk ihr => simp [Forest.setMode, Forest.all, hP, ihk, ihr]
+
+theorem tree_all_setMode (P : Info → Bool) (hP : ∀ i b, P { i with training := b } = P i) (b : Bool) (t : Tree) :
+    (setMode b t).all P = t.all P := by
+  simp [Tree.all, setMode, hP, forest_all_setMode P hP]
+
+theorem forest_wf_setMode (b : Bool) (k : Forest) : (k.setMode b).wf = k.wf := by
+  induction k with
+  | nil => rfl
+  | cons i kk r ihk ihr =>
+    simp only [Forest.setMode, Forest.wf, find_setMode, Option.isNone_map, ihk, ihr]
+
+theorem subAt_installed (v : Variant) (m r : Tree) (q : Path) :
+    subAt q (installed v m r) = (subAt q r).map (fun s => installed v m s) := by
+  unfold installed
+  split
+  · exact subAt_setMode _ q r
+  · simp
+
+theorem installed_info_modulo_mode (v : Variant) (m s : Tree) :
+    ∃ b, (installed v m s).info = { s.info with training := b } := by
+  unfold installed
+  split
+  · exact ⟨_, rfl⟩
+  · exact ⟨s.info.training, rfl⟩
+
 /-! ### the loop of `ModuleValidator.fix` -/
 
 theorem replaceSub_eq (t : Tree) (p : Path) (r : Tree) : replaceSub t p r = replaceAt p t r := by
@@ -300,7 +351,7 @@ theorem replaceSub_eq (t : Tree) (p : Path) (r : Tree) : replaceSub t p r = repl
 /-- induction principle for `fixLoop`: an invariant of the pair (names still to visit, working tree) -/
 theorem fixLoop_inv {v : Variant} {kw : Kw} (Inv : List Path → Tree → Prop)
     (hfix : ∀ p ps t g m r t1, Inv (p :: ps) t → subAt p t = some m → fixerKeys.contains m.info.ty = true →
-      fixer v kw g m = .ok r → replaceAt p t r = some t1 → Inv ps t1)
+      fixer v kw g m = .ok r → replaceAt p t (installed v m r) = some t1 → Inv ps t1)
     (hskip : ∀ p ps t m, Inv (p :: ps) t → subAt p t = some m → fixerKeys.contains m.info.ty = false → Inv ps t) :
     ∀ ps t g t', Inv ps t → fixLoop v kw ps t g = .ok t' → Inv [] t' := by
   intro ps
@@ -354,19 +405,39 @@ list of names yet to be visited -/
 def InvV (v : Variant) (ps : List Path) (t : Tree) : Prop :=
   t.WF ∧ t.info.training = true ∧ ∀ q s, subAt q t = some s → badNode v s.info = true → q ∈ ps
 
+theorem badNode_training (v : Variant) (i : Info) (b : Bool) : badNode v { i with training := b } = badNode v i := rfl
+
+theorem installed_okNode (v : Variant) (m r : Tree) : okNode (installed v m r).info = okNode r.info := by
+  obtain ⟨b, hb⟩ := installed_info_modulo_mode v m r
+  rw [hb]; rfl
+
+theorem installed_kids_wf (v : Variant) (m r : Tree) : (installed v m r).kids.wf = r.kids.wf := by
+  unfold installed
+  split
+  · exact forest_wf_setMode _ _
+  · rfl
+
+theorem installed_training (v : Variant) (m r : Tree) (h : m.info.training = true → r.info.training = true) :
+    m.info.training = true → (installed v m r).info.training = true := by
+  intro hm
+  unfold installed
+  split
+  · simpa [setMode] using hm
+  · exact h hm
+
 theorem invV_fix {v : Variant} {kw : Kw} (p : Path) (ps : List Path) (t : Tree) (g : Nat) (m r t1 : Tree)
     (hI : InvV v (p :: ps) t) (hm : subAt p t = some m) (hty : fixerKeys.contains m.info.ty = true)
-    (hf : fixer v kw g m = .ok r) (hr : replaceAt p t r = some t1) : InvV v ps t1 := by
+    (hf : fixer v kw g m = .ok r) (hr : replaceAt p t (installed v m r) = some t1) : InvV v ps t1 := by
   obtain ⟨hw, htr, hbad⟩ := hI
   obtain ⟨hok, htrain, hwf, hkids, _⟩ := fixer_spec hf hty
   have hmw : m.WF := wf_subAt hw hm
-  refine ⟨wf_replaceAt hw (hwf hmw) hr, ?_, ?_⟩
+  refine ⟨wf_replaceAt hw (by unfold Tree.WF; rw [installed_kids_wf]; exact hwf hmw) hr, ?_, ?_⟩
   · cases p with
     | nil =>
       simp only [replaceAt, Option.some.injEq] at hr
       simp only [subAt_nil, Option.some.injEq] at hm
       subst hr hm
-      exact htrain htr
+      exact installed_training v _ r htrain htr
     | cons a p => rw [replaceAt_info (by simp) hr]; exact htr
   · intro q s hq hb
     have hne : ∀ q', q' ≠ [] → p ++ q' ∈ p :: ps → p ++ q' ∈ ps := by
@@ -383,8 +454,14 @@ theorem invV_fix {v : Variant} {kw : Kw} (p : Path) (ps : List Path) (t : Tree) 
       · subst hq'
         simp only [subAt_nil, Option.some.injEq] at hq
         subst hq
-        simp [badNode, Tree.setName, okNode_name, hok] at hb
-      · rw [subAt_setName _ _ _ hq'] at hq
+        simp [badNode, Tree.setName, okNode_name, installed_okNode, hok] at hb
+      · rw [subAt_setName _ _ _ hq', subAt_installed] at hq
+        simp only [Option.map_eq_some_iff] at hq
+        obtain ⟨s1, hq, rfl⟩ := hq
+        have hb : badNode v s1.info = true := by
+          obtain ⟨b, hbb⟩ := installed_info_modulo_mode v m s1
+          rw [hbb, badNode_training] at hb
+          exact hb
         rcases hkids with hk | hk | ⟨f, hk⟩
         · have hall : r.all okNode = true := by simp [Tree.all, hok, hk]
           have := all_subAt hall hq
@@ -392,7 +469,7 @@ theorem invV_fix {v : Variant} {kw : Kw} (p : Path) (ps : List Path) (t : Tree) 
           simp [badNode, this.1] at hb
         · rw [subAt_kids_eq hq' hk] at hq
           apply hne q' hq'
-          exact hbad _ s (by rw [subAt_append, hm]; exact hq) hb
+          exact hbad _ s1 (by rw [subAt_append, hm]; exact hq) hb
         · have : subAt q' r = subAt q' (m.mapOid f) := subAt_kids_eq hq' (by simp [Tree.mapOid, hk])
           rw [this, subAt_mapOid] at hq
           simp only [Option.map_eq_some_iff] at hq
